@@ -39,7 +39,10 @@ fn main() {
         }
     }
     // panics of the code under test are caught and reported as data; keep stderr quiet
-    std::panic::set_hook(Box::new(|_| {}));
+    // (set VERIF_PANIC_TRACE to see where a harness bug panicked)
+    if std::env::var("VERIF_PANIC_TRACE").is_err() {
+        std::panic::set_hook(Box::new(|_| {}));
+    }
     if a.extra.iter().any(|x| x == "--worker") {
         gen::worker::worker_main();
         return;
@@ -50,6 +53,7 @@ fn main() {
         "C03" => props::c03::run(&a),
         "C16" => props::c03::run_prop(&a, "C16", 16),
         "C01" => props::c01::run(&a),
+        "C08" => props::c08::run(&a),
         "C04" => props::c01::run_prop(&a, "C04", 4),
         "C09" => props::c09::run(&a),
         "C11" => props::c11::run(&a),
